@@ -261,6 +261,60 @@ def devNonBmpBefore (text : Bytes) (off : Nat) : Bool :=
 /-- Tag tokens are placed by BYTE offsets inside the comment: wrong after a non-ASCII byte. -/
 def devTagBytes (t : Token) (endByte : Nat) : Bool := (t.val.take endByte).any (· ≥ 0x80)
 
+/-! ### Hypotheses on the lexer's output
+
+  The tokenizer model takes the lexer's tokens as input; the theorems about positions assume
+  the following decidable facts about them (the driver evaluates them on every generated case:
+  they hold on every case outside the guards above).  Columns are the lexer's (1-based, runes). -/
+
+/-- The cells a lexer token claims on its line, as the semantic tokenizer will use them:
+    the UTF-16 length of the value (+1 for the `;` of a comment; a comment in which tags are
+    found is cut up by byte offsets: byte length + 1); nothing for kinds that are not mapped. -/
+def claimWidth (cls : Classes) (t : Token) : Nat :=
+  match mapTokenType t.ty with
+  | none => 0
+  | some _ =>
+    if t.ty == .comment then
+      (if (extractSpans cls t.val).isEmpty then u16lenB t.val + 1 else t.val.length + 1)
+    else u16lenB t.val
+
+/-- Line and column are positive and everything fits in `uint32`. -/
+def tokBounds (cls : Classes) (t : Token) : Bool :=
+  1 ≤ t.pos.line && t.pos.line < 2 ^ 32 && 1 ≤ t.pos.col && t.pos.col + claimWidth cls t < 2 ^ 32
+
+/-- `t'` starts after the cells `t` claims. -/
+def boxLe (cls : Classes) (t t' : Token) : Bool :=
+  t.pos.line < t'.pos.line || (t.pos.line == t'.pos.line && t.pos.col + claimWidth cls t ≤ t'.pos.col)
+
+/-- The tokens `tokenizeForSemantics` looks at (up to the EOF token) that it maps to a
+    semantic type. -/
+def mappedBody : List Token → List Token
+  | [] => []
+  | t :: rest =>
+    if t.ty == .eof then []
+    else if (mapTokenType t.ty).isSome then t :: mappedBody rest else mappedBody rest
+
+def chainB (cls : Classes) : List Token → Bool
+  | t :: t' :: rest => boxLe cls t t' && chainB cls (t' :: rest)
+  | _ => true
+
+/-- Bounds, and every mapped token starts after the cells claimed by the mapped token before it. -/
+def spacedB (cls : Classes) (toks : List Token) : Bool :=
+  (mappedBody toks).all (tokBounds cls) && chainB cls (mappedBody toks)
+
+/-- The cells claimed lie inside the token's line (`lens` = UTF-16 length of every line). -/
+def inlineB (lens : List Nat) (cls : Classes) (toks : List Token) : Bool :=
+  (mappedBody toks).all fun t =>
+    match lens[t.pos.line - 1]? with
+    | some n => t.pos.col - 1 + claimWidth cls t ≤ n
+    | none => false
+
+/-- The lexer's line, column and value describe where the lexeme really is in the text (in LSP
+    coordinates) and how long it is: false exactly for the deviations listed above. -/
+def faithful (text : Bytes) (t : Token) : Bool :=
+  let w := u16lenB t.val + (if t.ty == .comment then 1 else 0)
+  w > 0 && lexemeSpan text t == (t.pos.line - 1, t.pos.col - 1, w)
+
 /-- The property's domain: valid UTF-8 (no U+FFFD produced by decoding unless present), and CR
     only as part of CRLF. -/
 def crOnlyBeforeLf : Bytes → Bool
